@@ -610,6 +610,14 @@ class FnRewriter:
                         k += 1
                 j = k
                 continue
+            # R18: unit-level `"envcalls": {"method": "envfn"}`: any method call `RECV.method(ARGS)` whose
+            #      receiver is a postfix chain  ==>  `envfn(RECV, ARGS)` (evaluation order unchanged).  For
+            #      std methods Verus cannot specify (provided trait methods such as Iterator::eq); envfn is
+            #      an assumed contract in env.rs.  A receiver/argument that does not fit envfn's parameter
+            #      types is a compile error => undecided.
+            if in_body and self.unit.get('envcalls') and j in self._r18_starts():
+                j = self._emit_r18(j, out, rw, pathmap, overlay_piece)
+                continue
             # R16: `IDENT.method()` (no arguments, plain identifier receiver) for a method named in an
             #      `//@ envcall method envfn [idents]` directive  ==>  `envfn(IDENT)`.  For std calls the
             #      verifier cannot express (tuple `clone`, `Iterator::cloned`); envfn is an assumed
@@ -1222,6 +1230,116 @@ class FnRewriter:
             overlay_piece('\n' + text, line - 1, 'loopentry%d' % n)
         self._emit_range(body_lo, body_hi, out, rw, pathmap, True, overlay_piece)
         out(' }' + _nl(''.join(x.text for x in toks[body_hi:pc + 1])), pc)
+        return pc + 1
+
+    # ------------------------------------------------------------ R18 unit-level env calls
+    _R18_KW = ('if', 'match', 'while', 'return', 'in', 'let', 'else', 'for', 'loop', 'move', 'as', 'mut',
+               'ref', 'break', 'continue', 'where', 'unsafe', 'dyn', 'impl', 'fn')
+
+    def _r18_starts(self):
+        """receiver start token index -> list of (dot, name_idx, po, pc, envfn), outermost call first."""
+        if hasattr(self, '_r18_cache'):
+            return self._r18_cache
+        res = {}
+        toks = self.sf.toks
+        lo, hi = self.bo + 1, self.e
+        calls = self.unit.get('envcalls', {})
+        sig = [k for k in range(lo, hi) if toks[k].kind not in ('ws', 'comment')]
+        pos = {k: n for n, k in enumerate(sig)}
+
+        def prev(k):
+            n = pos[k] - 1
+            return sig[n] if n >= 0 else None
+
+        def open_of(k):
+            depth = 0
+            q = k
+            while q is not None:
+                tq = toks[q]
+                if tq.kind == 'punct' and tq.text in ')]}':
+                    depth += 1
+                elif tq.kind == 'punct' and tq.text in '([{':
+                    depth -= 1
+                    if depth == 0:
+                        return q
+                q = prev(q)
+            return None
+
+        for n, k in enumerate(sig):
+            t = toks[k]
+            if not (t.kind == 'punct' and t.text == '.' and n + 2 < len(sig)):
+                continue
+            nm, po = sig[n + 1], sig[n + 2]
+            if not (toks[nm].kind == 'ident' and toks[nm].text in calls and toks[po].text == '('):
+                continue
+            # walk the receiver back
+            q = prev(k)
+            start = None
+            need_operand = True
+            while q is not None:
+                tq = toks[q]
+                if need_operand:
+                    if tq.kind == 'punct' and tq.text in ')]':
+                        o = open_of(q)
+                        if o is None:
+                            break
+                        start = o
+                        p2 = prev(o)
+                        if (tq.text == ')' and p2 is not None and toks[p2].kind == 'ident'
+                                and toks[p2].text not in self._R18_KW):
+                            q = p2          # `name(args)`: the callee name is the operand
+                            continue
+                        if tq.text == ']' and p2 is not None:
+                            q = p2          # indexing: the indexed expression continues the operand
+                            continue
+                        need_operand = False
+                        q = p2
+                        continue
+                    if tq.kind == 'ident' and tq.text not in self._R18_KW:
+                        start = q
+                        need_operand = False
+                        q = prev(q)
+                        continue
+                    if tq.kind == 'punct' and tq.text == '?':
+                        q = prev(q)
+                        continue
+                    start = None if start is None else start
+                    break
+                else:
+                    if tq.kind == 'punct' and tq.text == '.':
+                        need_operand = True
+                        q = prev(q)
+                        continue
+                    if (tq.kind == 'punct' and tq.text == ':' and prev(q) is not None
+                            and toks[prev(q)].text == ':'):
+                        need_operand = True
+                        q = prev(prev(q))
+                        continue
+                    break
+            if start is None or need_operand and q is not None and start is None:
+                continue
+            res.setdefault(start, []).append((k, nm, po, match_close(toks, po), calls[toks[nm].text]))
+        for st in res:
+            res[st].sort(key=lambda c: -c[0])
+        self._r18_cache = res
+        return res
+
+    def _emit_r18(self, j, out, rw, pathmap, overlay_piece):
+        toks = self.sf.toks
+        lst = self._r18_cache[j]
+        dot, nm, po, pc, envfn = lst.pop(0)
+        if not lst:
+            del self._r18_cache[j]
+        self.log.append({'rule': 'R18', 'fn': self.fnkey, 'line': self.sf.line_of(toks[dot].start),
+                         'what': '%s.%s(..) -> %s(%s, ..)' % (' '.join(''.join(x.text for x in toks[j:dot]).split())[:60],
+                                                              toks[nm].text, envfn,
+                                                              ' '.join(''.join(x.text for x in toks[j:dot]).split())[:60])})
+        out('%s(' % envfn, j)
+        self._emit_range(j, dot, out, rw, pathmap, True, overlay_piece)
+        args = [q for q in range(po + 1, pc) if toks[q].kind not in ('ws', 'comment')]
+        out(_nl(''.join(x.text for x in toks[dot:po + 1])) + (', ' if args else ''), dot)
+        self._emit_range(po + 1, pc, out, rw, pathmap, True, overlay_piece)
+        out(')', pc)
         return pc + 1
 
     # ------------------------------------------------------------ R16 env call
